@@ -54,7 +54,8 @@ def spec(prop, tier, seed, args):
     eng = runner.engine_module(engine)
     n = args.runs if args.runs is not None else (nq if tier == "quick" else nt)
     if n or nq or tier == "thorough":
-      for label, plan in eng.directed_plans(prop, profile):
+      for label, plan in core.run_in_child(
+          eng.directed_plans, (prop, profile), 600.0, "directed plans"):
         directed.append(runner.make_job(engine, prop, profile, tier, seed, -1,
                                         plan=plan, label=label))
     lanes.append([runner.make_job(engine, prop, profile, tier, seed, i)
